@@ -1,6 +1,7 @@
 import AslModel.SockServer
 import AslProofs.SockServer
 import Gen.SockGen
+import AslProofs.SockLive
 /-!
 # C14 — SocketServer serves each accepted connection exactly once and stops cleanly
 
@@ -157,5 +158,32 @@ example : (run (init 1 false) [Act.reqStop, Act.check true, Act.readRunning, Act
 
 example : (run (init 1 true) [Act.connect 0, Act.accept 0, Act.count, Act.hBegin 0, Act.hEnd 0, Act.hClose 0, Act.hDec 0,
     Act.reqStop, Act.check false, Act.check true, Act.readRunning, Act.readNum]).cpc = CPc.returned := by decide
+
+/-! ## progress: `stop(true)` is never blocked for ever (`AslProofs/SockLive.lean`) -/
+
+open AslProofs.SockLive in
+/-- **stop_sync_terminates.**  In every reachable state in which `stop(true)` has been called and has not yet returned — whatever
+    the accept loop and the handlers were doing at that moment, in either mode — the server's own threads can bring it to its
+    return without any new connection and without another `accept()`: there is a continuation of at most `mu` steps (what is left:
+    the accept loop's way to its exit, 7 − status steps of every accepted connection, the controller's two reads), each of them
+    enabled, after which `stop(true)` has returned.  (Possibility under a fair scheduler, not a time bound: the model has no clock.) -/
+theorem stop_sync_terminates (n : Nat) (q : Bool) (r : List Act)
+    (hp : (run (init n q) r).cpc = CPc.waiting ∨ (run (init n q) r).cpc = CPc.sawStopped) :
+    ∃ r' : List Act, (run (run (init n q) r) r').cpc = CPc.returned ∧ r'.length ≤ mu (run (init n q) r) ∧
+      (∀ a ∈ r', ∀ c, a ≠ Act.connect c ∧ a ≠ Act.accept c) :=
+  stop_terminates_aux _ _ (run_inv r _ (init_inv n q)) hp (Nat.le_refl _)
+
+open AslProofs.SockLive in
+/-- …and at each of those states the step the scheduler takes is enabled and strictly decreases what is left (no deadlock, no livelock). -/
+theorem stop_sync_progress (n : Nat) (q : Bool) (r : List Act)
+    (hp : (run (init n q) r).cpc = CPc.waiting ∨ (run (init n q) r).cpc = CPc.sawStopped) :
+    enabled (run (init n q) r) (next (run (init n q) r)) = true ∧
+      mu (step (run (init n q) r) (next (run (init n q) r))) < mu (run (init n q) r) :=
+  let h := next_progress _ (run_inv r _ (init_inv n q)) hp
+  ⟨h.1, h.2.1⟩
+
+/-- non-vacuity (test, labelled as such): concurrent mode, two connections accepted, one handler inside `serve()`, `stop(true)` waiting -/
+example : (run (init 2 false) [Act.connect 0, Act.connect 1, Act.accept 0, Act.count, Act.accept 1, Act.count, Act.hBegin 0, Act.reqStop]).cpc = CPc.waiting ∧
+    AslProofs.SockLive.mu (run (init 2 false) [Act.connect 0, Act.connect 1, Act.accept 0, Act.count, Act.accept 1, Act.count, Act.hBegin 0, Act.reqStop]) = 10 := by decide
 
 end C14
